@@ -59,7 +59,9 @@ def judge (q a : List String) : Verdict :=
     | some n0, some v0 =>
       -- set_parse / Engine::set_config split "name:value" at the first ':'
       let nv : Option (List Char × List Char) :=
-        if api == "str" then some (n0, v0) else splitNameValue (n0 ++ ':' :: v0)
+        -- "typ": the typed API simgrid::config::set_value<T>(name, v) (what Engine::set_config(name, T) calls): same store
+        -- and default-flag semantics as set_as_string on the canonical text of the value
+        if api == "str" || api == "typ" then some (n0, v0) else splitNameValue (n0 ++ ':' :: v0)
       match nv with
       | none => .bad
       | some (n, v) =>
